@@ -588,6 +588,123 @@ def afterValidatorRemoved (s : State) (v : Nat) : State :=
       | some k => { x with ka := x.ka.filter (·.1 != v), byaddr := x.byaddr.filter (·.1 != k) }
       | none => x }
 
+/-! ### jail throttling (throttle.go) and downtime slash packets (relay.go) -/
+
+structure Throttle where
+  meter     : Int := 0
+  candidate : Time := 0           -- SlashMeterReplenishTimeCandidate
+  period    : Int := 3600000000000
+  fracScaled : Nat := 50000000000000000   -- replenish fraction as a 10^18-scaled integer
+deriving Repr, Inhabited
+
+/-- GetSlashMeterAllowance: banker's-rounded fraction of the total power, at least 1 -/
+def allowance (t : Throttle) (totalPower : Nat) : Nat :=
+  let r := TopN.chopRound (t.fracScaled * totalPower)
+  if r == 0 then 1 else r
+
+def totalPower (s : State) : Nat := (s.stk.map (·.lastPower)).sum
+
+/-- ReplenishSlashMeter when the candidate time has been reached: add one allowance, capped at the
+    allowance; the next candidate is one period from now -/
+def replenishStep (t : Throttle) (now : Time) (allow : Nat) : Throttle :=
+  if now ≥ t.candidate then
+    { t with meter := if t.meter + allow > allow then allow else t.meter + allow, candidate := now + t.period }
+  else t
+
+/-- the meter is never above the allowance of this block; while it is full the candidate keeps moving -/
+def clampStep (t : Throttle) (now : Time) (allow : Nat) : Throttle :=
+  if t.meter ≥ allow then { t with candidate := now + t.period, meter := allow } else t
+
+/-- CheckForSlashMeterReplenishment (BeginBlockCIS) -/
+def checkReplenish (t : Throttle) (now : Time) (allow : Nat) : Throttle :=
+  clampStep (replenishStep t now allow) now allow
+
+structure SlashPkt where
+  key        : Nat
+  power      : Nat
+  vscId      : Nat
+  infraction : Nat      -- 0 unspecified, 1 double sign, 2 downtime
+deriving Repr, Inhabited
+
+inductive SlashAck | panic | error | v1 | handled | bounced
+deriving DecidableEq, Repr
+
+/-- an effect on the staking / slashing modules (what the keeper asks them to do) -/
+inductive StkEffect
+  | slash (v infractionHeight power : Nat) (frac : String)
+  | jail (v : Nat)
+  | jailUntil (v : Nat) (t : Time)
+deriving DecidableEq, Repr
+
+/-- getMappedInfractionHeight -/
+def mappedInfractionHeight (x : Consumer) (vsc2h : List (Nat × Nat)) (vscId : Nat) : Option Nat :=
+  if vscId == 0 then x.initH
+  else match vsc2h.find? (·.1 == vscId) with
+    | some e => some e.2
+    | none => none
+
+/-- GetEffectiveValPower -/
+def effectivePower (s : State) (v : Nat) : Nat :=
+  match s.stk.find? (·.id == v) with
+  | some r => if r.jailed then 0 else r.lastPower
+  | none => 0
+
+/-- HandleSlashPacket: (slash acks afterwards, effects on staking) -/
+def handleSlash (s : State) (x : Consumer) (vsc2h : List (Nat × Nat)) (p : SlashPkt) : List Nat × List StkEffect :=
+  let v := providerOf x p.key
+  match s.stk.find? (·.id == v) with
+  | none => (x.acks, [])                               -- validator not found
+  | some r =>
+    if r.status == 1 then (x.acks, [])                 -- unbonded
+    else if r.tomb then (x.acks, [])                   -- tombstoned
+    else
+      match mappedInfractionHeight x vsc2h p.vscId with
+      | none => (x.acks, [])
+      | some ih =>
+        let acks := x.acks ++ [p.key]
+        match x.infr with
+        | none => (acks, [])
+        | some ip =>
+          match ip.dt with
+          | none => (acks, [])
+          | some dt =>
+            if r.jailed then (acks, [])
+            else (acks, [.slash v ih p.power dt.frac, .jail v, .jailUntil v (s.now + dt.jail)])
+
+/-- when HandleSlashPacket jails: (validator, infraction height, the consumer's downtime parameters) -/
+def jailPlan (s : State) (x : Consumer) (vsc2h : List (Nat × Nat)) (p : SlashPkt) : Option (Nat × Nat × SlashJail) :=
+  let v := providerOf x p.key
+  match s.stk.find? (·.id == v) with
+  | none => none
+  | some r =>
+    if r.status == 1 || r.tomb || r.jailed then none
+    else
+      match mappedInfractionHeight x vsc2h p.vscId, x.infr.bind (·.dt) with
+      | some ih, some dt => some (v, ih, dt)
+      | _, _ => none
+
+/-- OnRecvSlashPacket: new state, meter, staking effects, acknowledgement -/
+def onRecvSlash (s : State) (t : Throttle) (vsc2h : List (Nat × Nat)) (chan : String) (p : SlashPkt) :
+    State × Throttle × List StkEffect × SlashAck :=
+  match s.chan2c.find? (·.1 == chan) with
+  | none => (s, t, [], .panic)
+  | some e =>
+    let c := e.2
+    let x := s.get c
+    if p.power == 0 then (s, t, [], .error)
+    else if p.infraction != 1 && p.infraction != 2 then (s, t, [], .error)
+    else if (mappedInfractionHeight x vsc2h p.vscId).isNone then (s, t, [], .error)
+    else if p.infraction == 1 then (s, t, [], .v1)                 -- double sign: logged, never punished here
+    else if x.phase != .launched then (s.set { x with acks := x.acks ++ [p.key] }, t, [], .handled)
+    else
+      let v := providerOf x p.key
+      if !(x.valset.any (·.v == v)) then (s.set { x with acks := x.acks ++ [p.key] }, t, [], .handled)
+      else if t.meter < 0 then (s, t, [], .bounced)
+      else
+        let t' := { t with meter := t.meter - effectivePower s v }
+        let r := handleSlash s x vsc2h p
+        (s.set { x with acks := r.1 }, t', r.2, .handled)
+
 /-! ### channel handshake (ibc_module.go, keeper.go VerifyConsumerChain / SetConsumerChain) -/
 
 /-- a connection as the provider sees it: its client, and whether that client is a tendermint client -/
